@@ -33,8 +33,8 @@ print(p)" 2>/dev/null)
     [ -n "$pkg" ] && [ -d "$W/repo/$pkg" ] || { echo "cannot find demo package dir ($pkg)"; return 99; }
     cp "$SRC/demo${N}_test.go" "$W/repo/$pkg/zz_seed_demo_test.go"
     cp "$SRC/demo${N}_test.go" "$DST/demo_test.go"; echo "$pkg" > "$DST/demo_pkg.txt"
-    tname=$(grep -o 'func Test[A-Za-z0-9_]*' "$SRC/demo${N}_test.go" | head -1 | sed 's/func //')
-    ( cd "$W/repo" && eval "$DEMOENV go test -count=1 -run '^${tname}\$' ./$pkg/ " ) > "$W/demo.out" 2>&1; rc=$?
+    tname=$(grep -o '^func Test[A-Za-z0-9_]*' "$SRC/demo${N}_test.go" | sed 's/func //' | paste -sd'|')
+    ( cd "$W/repo" && eval "$DEMOENV go test -count=1 -run '^(${tname})\$' ./$pkg/ " ) > "$W/demo.out" 2>&1; rc=$?
     rm -f "$W/repo/$pkg/zz_seed_demo_test.go"; return $rc
   elif [ -d "$SRC/demo$N" ]; then
     mkdir -p "$W/repo/zz_seed_demo" && cp "$SRC/demo$N"/*.go "$W/repo/zz_seed_demo/" && mkdir -p "$DST/demo" && cp "$SRC/demo$N"/*.go "$DST/demo/"
